@@ -57,6 +57,8 @@ class Ctx:
 
     def isinst(self, r, clsname):
         ci = self.eng.prog.find_class(clsname)
+        if ci is None:
+            raise Unsupported("class %s referred to by a specification is not defined in /repo" % clsname)
         ids = self.eng.schema.subclass_ids(self.eng.prog, ci)
         k = self.kind(r)
         return z3.Or([k == i for i in ids])
